@@ -30,7 +30,11 @@ def compile_codec(prep, cfg):
     return build.compile_driver(prep.src, cfg, inc_dirs=(prep.gen["dir"],), dep_key=prep.dep, name="codec-" + prep.schema.package)
 
 
-CODEC_MAX_OUTPUT = 40 << 20
+# quick runs print a few MB per driver run; a thorough C19 run (12 images x up to 400 stop points, one image with 64 KiB
+# <data> members) legitimately prints more than 40 MB, which the first version of this cap cut off (a false alarm of the
+# thorough tier, DESIGN 5) -- the thorough tiers keep the limit they always had
+def codec_max_output():
+    return (40 << 20) if os.environ.get("VERIF_TIER", "quick") == "quick" else (192 << 20)
 MAX_BLOCK_LINES = 60000
 
 
@@ -54,7 +58,7 @@ def run_codec(exe, commands, timeout=600):
         # bound; 16 supervisors each holding hundreds of megabytes of lines took 50 GB in a trial with seeded change
         # C19-5, so the capture is capped well above what a sound run prints (a few MB) and a block keeps at most
         # MAX_BLOCK_LINES lines (the first difference is what gets reported, it lies long before that)
-        rc, o, _, to = C.run([exe], input=inp.encode(), timeout=timeout, env=build.drv_env(), max_output=CODEC_MAX_OUTPUT)
+        rc, o, _, to = C.run([exe], input=inp.encode(), timeout=timeout, env=build.drv_env(), max_output=codec_max_output())
         out = o.decode(errors="replace")
         del o
         res.ubsan += build.ubsan_reports(out)
